@@ -198,6 +198,12 @@ pub fn gen_bytes(rng: &mut Rng) -> Vec<u8> {
 }
 
 pub fn run_one(rep: &mut Report, prop: &str, b: &[u8], to_coq: bool) {
+    // every run sees the bytes at a different offset from an aligned address (0..7)
+    static SHIFT: std::sync::atomic::AtomicUsize = std::sync::atomic::AtomicUsize::new(0);
+    let shift = SHIFT.fetch_add(1, std::sync::atomic::Ordering::Relaxed) % 8;
+    let shifted = emit::Shifted::new(b, shift);
+    let b = shifted.bytes();
+    rep.count(&format!("address-offset:{}", shift));
     let ids = [token::id(), token_2022::id(), Pubkey::new_from_array([7u8; 32])];
     let names = ["PToken", "PToken2022", "POther"];
     let ra = ref_account(b);
@@ -209,7 +215,7 @@ pub fn run_one(rep: &mut Report, prop: &str, b: &[u8], to_coq: bool) {
     for (k, id) in ids.iter().enumerate() {
         let a = catch_plain(|| generic_token::Account::unpack(b, id).map(|a| (a.mint.to_bytes().to_vec(), a.owner.to_bytes().to_vec(), a.amount)));
         let m = catch_plain(|| generic_token::Mint::unpack(b, id).map(|m| (m.supply, m.decimals)));
-        let det = |what: &str| serde_json::json!({"bytes": emit::hex(b), "program": names[k], "what": what, "account": format!("{:?}", a), "mint": format!("{:?}", m)}).to_string();
+        let det = |what: &str| serde_json::json!({"bytes": emit::hex(b), "address_offset": shift, "program": names[k], "what": what, "account": format!("{:?}", a), "mint": format!("{:?}", m)}).to_string();
         if a.is_panic() || m.is_panic() {
             rep.violate("generic-panic", "a generic token parser panicked", det("panic"));
         }
